@@ -99,7 +99,7 @@ func specs() []*spec {
 			ID: "C03", Harness: "clustersim", Level: "exploration",
 			Batch: 40, QuickSecs: 30, ThoroughSecs: 600, PlanTimeoutS: 20,
 			RequiredProbes: []string{"allocations_judged", "preference_checked", "refused_not_enough_peers", "identical_options_shortcut", "exclusion_reallocated", "short_ttl_metric", "invalid_metric"},
-			Rule:           "plan = peer set of 1-8 members (one real Cluster, the others present through their metrics), allocator ascend|descend, cluster default factors, then 15-200 steps: metric arrivals (numeric incl. ties and max uint64, non-numeric, invalid, TTL 50 ms-10 min or already expired), seeded pinset entries with arbitrary current allocations, Pin / BlockAllocate (RPC) with every factor pair, user (priority) allocations, identical or changed options, PeerRemove-driven exclusion; delays land calls before/at/after metric expiry instants. Each call is judged against the monitor table read at the same simulated instant. Non-trivial = >=1 call and >=1 irregular metric/exclusion fired; distinct = distinct canonical trace digest.",
+			Rule:           "plan = peer set of 1-8 members (one real Cluster, the others present through their metrics), allocator ascend|descend, cluster default factors, then 15-200 steps: metric arrivals (numeric incl. ties and max uint64, non-numeric, invalid, TTL 50 ms-10 min or already expired), seeded pinset entries with arbitrary current allocations, Pin / BlockAllocate (RPC) with every factor (also only one of the two given, the other from the configuration) pair, user (priority) allocations, identical or changed options, PeerRemove-driven exclusion; delays land calls before/at/after metric expiry instants. Each call is judged against the monitor table read at the same simulated instant. Non-trivial = >=1 call and >=1 irregular metric/exclusion fired; distinct = distinct canonical trace digest.",
 			Real:           []string{"ipfscluster.Cluster (Pin, pin, setupPin, allocate, obtainAllocations, PeerRemove/vacatePeer/repinFromPeer, BlockAllocate RPC, RPC server)", "allocator/ascendalloc, descendalloc, allocator/util.SortNumeric", "monitor/metrics.Store (freshness filter inside the model monitor)", "state/dsstate (pinset storage)", "gorpc over libp2p basic host on mocknet"},
 			Model:          []string{"consensus (single-copy pinset over dsstate, call log)", "monitor shell (table fed by the plan, real Store inside)", "tracker, IPFS connector, informer"},
 			Assumptions:    []string{"ties between equal metric values may fall either way (the shipped sort is not stable)", "a call during which simulated time passed is not judged (none is expected)", "ambiguous metric values (negative, fractional) are not generated"},
@@ -108,7 +108,7 @@ func specs() []*spec {
 			ID: "C04", Harness: "clustersim", Level: "exploration",
 			Batch: 40, QuickSecs: 30, ThoroughSecs: 600, PlanTimeoutS: 20,
 			RequiredProbes: []string{"refusals", "identical_repin", "updates", "meta_unpinned", "sharded_triple_seeded", "metadata_key_removed"},
-			Rule:           "plan = cluster defaults (factor pair, follower on/off), 1-5 healthy members, 2-5 CIDs, optional sharded triple, then 5-120 calls of Pin / PinPath / PinUpdate (option and direct) / Unpin / UnpinPath with every option (name, mode, factors incl. invalid pairs, expiry past/future with the clock moved between calls, metadata keys added/removed/changed, origins, user allocations, update source), plus re-pins derived from the stored entry (identical, key removed, key added, value changed). After every call the whole pinset is compared with an executable reference model of the statement. Non-trivial = >=1 call; distinct = distinct canonical trace digest.",
+			Rule:           "plan = cluster defaults (factor pair, follower on/off), 1-5 healthy members, 2-5 CIDs, optional sharded triple, then 5-120 calls of Pin / PinPath / PinUpdate (option and direct) / Unpin / UnpinPath, a third of the pins and unpins through the peer's own Cluster.Pin / Cluster.Unpin RPC endpoints as the REST API does, with every option (name, mode, factors incl. invalid pairs and pairs with only one factor given, expiry past/future with the clock moved between calls, metadata keys added/removed/changed, origins, user allocations, update source), plus re-pins derived from the stored entry (identical, key removed, key added, value changed). After every call the whole pinset is compared with an executable reference model of the statement. Non-trivial = >=1 call; distinct = distinct canonical trace digest.",
 			Real:           []string{"ipfscluster.Cluster (Pin, PinPath, PinUpdate, Unpin, UnpinPath, pin, setupPin, checkPinType, unpinClusterDag, cidsFromMetaPin)", "api.PinOptions.Equals, api.PinWithOpts", "state/dsstate + protobuf pin codec", "real allocator"},
 			Model:          []string{"consensus (single-copy pinset)", "monitor (all members healthy)", "IPFS connector (Resolve table, BlockGet of the cluster-DAG block)", "reference model of the statement (map CID -> pin + refusal rules)"},
 			Assumptions:    []string{"expiry is compared in whole seconds (documented lossy field)", "metadata with empty keys or empty values is not generated (the statement does not determine it)", "PinUpdate onto an existing sharded entry is not generated"},
@@ -126,7 +126,7 @@ func specs() []*spec {
 			ID: "C16", Harness: "ipfshttpsim", Level: "exploration",
 			Batch: 200, QuickSecs: 25, ThoroughSecs: 420, PlanTimeoutS: 10,
 			RequiredProbes: []string{"already_pinned_as_asked", "pin_update_used", "stalled_pin", "stalled_before_headers", "unpin_absent", "lscid_ok", "pin/add:transport", "pin/add:err_json", "pin/ls:transport", "pin/rm:err_json"},
-			Rule:           "plan = connector timeouts (PinTimeout 1-120 s, UnpinTimeout, IPFSRequestTimeout) + one call drawn systematically from the product {pin recursive|direct|depth|update, unpin, pin-ls} x prior daemon state x behaviour of every HTTP request of the conversation (pin/ls -> [swarm/connect] -> [pin/ls of source -> pin/update] | pin/add with progress): ok, IPFS JSON error, non-JSON error, transport error, no answer, garbage body, and for the progress stream n progress objects at 0-20 s gaps ending in final object | stall | connection drop | clean end with X-Stream-Error trailer; followed by 0-5 random calls over 3 CIDs. A contiguous seed range as long as the product (about 66k) covers the first-call product completely. Non-trivial = >=1 call and >=1 non-ok daemon behaviour fired; distinct = distinct canonical trace digest.",
+			Rule:           "plan = connector timeouts (PinTimeout 1-120 s, UnpinTimeout, IPFSRequestTimeout) + one call drawn systematically from the product {pin recursive|direct|depth|update, unpin, pin-ls} x prior daemon state x behaviour of every HTTP request of the conversation (pin/ls -> [swarm/connect] -> [pin/ls of source -> pin/update] | pin/add with progress): ok, IPFS JSON error, non-JSON error, transport error, no answer, garbage body, a 200 status followed by a dropped or stalled body (with or without the operation having taken effect), and for the progress stream n progress objects at 0-20 s gaps ending in final object | stall | connection drop | clean end with X-Stream-Error trailer; followed by 0-5 random calls over 3 CIDs. A contiguous seed range as long as the product (about 66k) covers the first-call product completely. Non-trivial = >=1 call and >=1 non-ok daemon behaviour fired; distinct = distinct canonical trace digest.",
 			Real:           []string{"ipfsconn/ipfshttp.Connector (Pin, pinProgress + watchdog, pinUpdate, Unpin, PinLsCid, postCtx/checkResponse error mapping)", "net/http client machinery above RoundTrip"},
 			Model:          []string{"scripted in-memory IPFS HTTP daemon installed as http.DefaultTransport (pin table with modes, go-ipfs error strings, go-ipfs-cmds X-Stream-Error trailer); the effect of pin/add lands with the final stream object unless the request was cancelled"},
 			Assumptions:    []string{"swarm/connect to origins is best effort by design and not judged", "the watchdog bound is 2 x PinTimeout + 1 s after the last progress (it ticks once per PinTimeout)", "a daemon that answers 200 to pin/rm or pin/update has performed it"},
@@ -146,7 +146,7 @@ func specs() []*spec {
 			Batch: 1, QuickSecs: 45, ThoroughSecs: 900, PlanTimeoutS: 60,
 			DetSamples: 10, DetThreshold: 0.9,
 			RequiredProbes: []string{"observations", "queue_full", "bursts", "local_order_checked", "convergence_checked", "tracker_handoffs_checked", "datastore_write_failed", "partition", "untrusted_publisher_checked"},
-			Rule:           "plan = 1-4 real CRDT replicas (batching disabled | size-triggered 1-8 | age-triggered 50 ms-5 s, queue 1-64, rebroadcast 1-30 s, trust-all | explicit lists | one untrusted replica, single-writer or contended CIDs) + 8-100 steps: LogPin/LogUnpin, bursts of 2-10 operations in one instant mixing pin and unpin of the same CID (same batch window, queue overflow), partitions, heals, resets, latency skews, datastore write failures placed in the middle of a batch (skip k writes, fail n), Trust/Distrust; then everything is healed and left quiet for 2 x rebroadcast + 30 s. Non-trivial = >=1 operation and >=1 fault fired; distinct = distinct canonical trace digest.",
+			Rule:           "plan = 1-4 real CRDT replicas with ipfscluster.newPubSub routers (batching disabled | size-triggered 1-8 | age-triggered 50 ms-5 s, queue 1-64, rebroadcast 1-30 s, trust-all | explicit lists | one untrusted replica, single-writer or contended CIDs) + 8-100 steps: LogPin/LogUnpin (every second one with a request context that ends as soon as the call returned), bursts of 2-10 operations in one instant mixing pin and unpin of the same CID (same batch window, queue overflow), partitions, heals, resets, latency skews, datastore write failures placed in the middle of a batch (skip k writes, fail n), Trust/Distrust; then everything is healed and left quiet for 2 x rebroadcast + 30 s. Non-trivial = >=1 operation and >=1 fault fired; distinct = distinct canonical trace digest.",
 			Real:           []string{"consensus/crdt (Consensus: LogPin/LogUnpin, batchWorker, hooks, topic validator, Trust/Distrust)", "state/dsstate (plain and batching)", "go-ds-crdt", "ipfs-lite + bitswap", "go-libp2p-pubsub gossipsub (signed, strict verification)", "go-libp2p-kad-dht dual DHT", "gorpc, libp2p basic host on mocknet"},
 			Model:          []string{"PinTracker and PeerMonitor RPC services (recording)", "fault-injecting in-memory datastore"},
 			Assumptions:    []string{"which value wins for concurrent writes to one CID is not prescribed, only that mutually trusting replicas agree", "after an injected datastore failure an accepted operation may be delayed, not lost once everything is healed and quiet"},
@@ -155,7 +155,7 @@ func specs() []*spec {
 			ID: "C13", Harness: "addersim", Level: "exploration",
 			Batch: 20, QuickSecs: 40, ThoroughSecs: 900, PlanTimeoutS: 60,
 			RequiredProbes: []string{"adds_succeeded", "adds_failed", "content_read_back", "single_pin_checked", "sharded_pins_checked", "importer_reference_checked", "indirect_shard_dag", "blockput_ipfs_error", "destination_partitioned", "cluster_pin_failed", "block_allocate_failed"},
-			Rule:           "plan = one add of a generated file tree (empty files, sizes at chunk-1/chunk/chunk+1/multiples, nested and wide directories, hidden entries, occasionally > 5984 blocks in one shard) with generated import parameters (size-N and rabin chunkers, balanced|trickle, raw leaves, CID version, sha2-256|sha2-512|blake2b-256, wrap, hidden, local, factor pair, sharding with shard sizes from 3 blocks to everything) on 1-4 destination peers, with faults: BlockPut fails at block k on destination d as an IPFS error, or the link to d is cut at block k (RPC error), the same block fails everywhere, the k-th BlockAllocate or Cluster.Pin fails. Non-trivial = the add ran and >=1 fault fired; distinct = distinct canonical trace digest.",
+			Rule:           "plan = one add of a generated file tree (empty files, sizes at chunk-1/chunk/chunk+1/multiples, nested and wide directories, hidden entries, occasionally > 5984 blocks in one shard) with generated import parameters (size-N and rabin chunkers, balanced|trickle, raw leaves, CID version, sha2-256|sha2-512|blake2b-256, wrap, hidden, local, factor pair, sharding with shard sizes from 3 blocks to everything) on 1-4 destination peers, with faults: BlockPut fails at block k on destination d as an IPFS error, or the link to d is cut at block k (RPC error), the same block fails everywhere, the k-th BlockAllocate or Cluster.Pin fails. In fault-free plans every block must also sit on every peer of the allocation its pin (or its shard) names. Non-trivial = the add ran and >=1 fault fired; distinct = distinct canonical trace digest.",
 			Real:           []string{"adder (Adder.FromFiles, format selection, wrap, Finalize)", "adder/ipfsadd (importer pipeline over MFS)", "adder/single and adder/sharding DAG services (ingestBlock, flushCurrentShard, shard.Flush, makeDAG)", "adder.BlockAdder multi-destination put via gorpc MultiCall over libp2p basic hosts on mocknet", "go-unixfs importer / reader, go-merkledag, go-ipld-cbor (reference and read-back)"},
 			Model:          []string{"Cluster.BlockAllocate / Cluster.Pin RPC service (recording, can fail)", "IPFSConnector.BlockPut RPC service per destination (per-destination block stores, per-(block,destination) fault)"},
 			Assumptions:    []string{"reference root = the same tree through the adder's importer on a plain in-memory DAG service, and for single files the go-unixfs importer called directly", "the file-tree/parameter dimension is input generation; the fault and multi-destination dimensions are what the simulator adds"},
@@ -166,7 +166,7 @@ func specs() []*spec {
 			Batch: 1, QuickSecs: 50, ThoroughSecs: 600, PlanTimeoutS: 120,
 			DetSamples: 8, DetThreshold: 0.9,
 			RequiredProbes: []string{"walks", "refusals", "allowed_calls", "trust_changes", "endpoints_found", "untrusted_publisher_checked"},
-			Rule:           "part 1 (clustersim): a real Cluster with a real Raft or CRDT consensus component (trust config: Raft | CRDT explicit list | empty list | trust-all) is called over libp2p by real gorpc clients; every RPC endpoint found by reflection over the five service types x {self, peer1, peer2} is called in a plan-chosen order (a complete walk of the table, repeated after plan-chosen Trust/Distrust calls) and each outcome is compared with what the statement dictates (untrusted: only identity, version and the join handshake; local-only endpoints refused to every remote caller; self never refused; refused means no effect on tracker, IPFS, blocks or pinset). part 2 (crdtsim): 2-4 CRDT replicas one of which nobody trusts publishes pins and unpins under partitions and latency skews; its updates must never show up at a replica that never trusted it. Non-trivial = >=1 call; distinct = distinct canonical trace digest.",
+			Rule:           "part 1 (clustersim): a real Cluster with a real Raft or CRDT consensus component (trust config: Raft | CRDT explicit list | empty list | trust-all, loaded through the JSON section or through defaults + CLUSTER_CRDT_TRUSTEDPEERS; tracing on or off) is called over libp2p by real gorpc clients; every RPC endpoint found by reflection over the five service types x {self, peer1, peer2} is called in a plan-chosen order (a complete walk of the table, repeated after plan-chosen Trust/Distrust calls) and each outcome is compared with what the statement dictates (untrusted: only identity, version and the join handshake; local-only endpoints refused to every remote caller; self never refused; refused means no effect on tracker, IPFS, blocks or pinset). part 2 (crdtsim): 2-4 CRDT replicas whose pubsub routers come from ipfscluster.newPubSub; one of them, which nobody trusts, publishes pins and unpins under partitions and latency skews, in a third of the plans without signatures and naming a trusted replica as author; its updates must never show up at a replica that never trusted it. Non-trivial = >=1 call; distinct = distinct canonical trace digest.",
 			Real:           []string{"ipfscluster.Cluster RPC server, authorisation function and default RPC policy", "consensus/raft and consensus/crdt IsTrustedPeer/Trust/Distrust, crdt pubsub topic validator", "go-libp2p-gorpc client/server over libp2p basic hosts on mocknet", "go-libp2p-pubsub (signed), go-ds-crdt"},
 			Model:          []string{"tracker, IPFS connector, monitor, informer behind the target (recording)", "specification table of peer-to-peer vs local-only endpoints written from the statement (harness/clustersim/c07.go)"},
 			Assumptions:    []string{"an endpoint present in the code but absent from the specification table stops the check with exit 2 (specification incomplete)", "a replica that some trusted replica trusts is vouched for: its updates are re-published by that replica, so the pubsub clause is judged only when nobody ever trusted the publisher"},
@@ -196,7 +196,7 @@ func specs() []*spec {
 			Batch: 8, QuickSecs: 45, ThoroughSecs: 600, PlanTimeoutS: 120,
 			DetSamples: 8, DetThreshold: 0.9,
 			RequiredProbes: []string{"offline_state_checked", "exports", "started_on_import", "import_over_existing_state", "rotations_checked", "peerstore_round_trips", "malformed_peerstore_lines"},
-			Rule:           "plan = a pinset built by 1-12 generated LogPin/LogUnpin calls on a real single-peer Raft (all pin fields except origins), graceful stop (snapshot on shutdown), OfflineState, JSON export through the real StateManager, import into another base directory that may already hold a different pinset, a peer started on the imported snapshot; then 1-5 CleanupRaft calls with backups_rotate 1-6, 0..N pre-existing backups and 0-2 further writes before each; then a peerstore save/load round trip with 1-5 peers (ip and dns addresses, several per peer, priority order) and malformed lines mixed into the file. Non-trivial = >=1 operation; distinct = distinct canonical trace digest.",
+			Rule:           "plan = a pinset built by 1-12 generated LogPin/LogUnpin calls on a real single-peer Raft (all pin fields except origins), graceful stop (snapshot on shutdown), OfflineState, JSON export through the real StateManager, import into another base directory that may already hold a different pinset, a peer started on the imported snapshot; then 1-5 CleanupRaft calls with backups_rotate 1-6, pre-existing backups (a contiguous run, or any set with holes and folders beyond the retention) and 0-2 further writes before each; the import target is empty, a cleanly stopped peer or what a killed peer leaves (log entries, no shutdown snapshot); then a peerstore save/load round trip (in half of the plans over a longer file saved earlier) with 1-5 peers (ip and dns addresses, several per peer, priority order) and malformed lines mixed into the file. Non-trivial = >=1 operation; distinct = distinct canonical trace digest.",
 			Real:           []string{"cmdutils StateManager (exportState/importState)", "consensus/raft SnapshotSave, OfflineState, LastStateRaw, CleanupRaft, dataBackupHelper, snapshot on shutdown", "state/dsstate Marshal/Unmarshal, api pin codecs (protobuf, JSON)", "pstoremgr SavePeerstore/LoadPeerstore/ImportPeers/PeerInfos", "hashicorp/raft + BoltDB + file snapshot store on tmpfs"},
 			Model:          []string{"directory model of raft / raft.old.N", "reference pinset (fold of the applied writes)"},
 			Assumptions:    []string{"pins with origins are not used here (known finding of C01)", "pre-existing backups are a contiguous set of at most N folders", "only folders that hold a snapshot are cleaned (an empty data folder is simply removed)"},
